@@ -10,7 +10,8 @@ from .absint import Engine, Auto
 from .common import norm
 from .cfg import cfg
 from .sym import sym, short
-from . import cg
+from . import cg, util
+from .sym import mentions
 
 FORMAT_CRATES = ("flussab_cnf", "flussab_aiger", "flussab_btor2")
 
@@ -184,12 +185,187 @@ def run_r1(ctx, rule):
     return eng
 
 
+class EofAuto(Auto):
+    """(saw end-of-input edge, saw io_error()==None edge)"""
+
+    name = "eof-token"
+
+    def initial(self):
+        return (False, False)
+
+    def event(self, state, ev, where):
+        if ev[0] == "narrow":
+            names = set(n for n, _ in ev[2][2])
+            if ev[1] == "look":
+                return (names == {"None"}, False)
+            if ev[1] == "ioerr" and names == {"None"}:
+                return (state[0], True)
+            if ev[1] == "iochk" and names == {"Ok"}:
+                return (state[0], True)
+        return state
+
+
+def run_r2(ctx, rule):
+    facts = ctx.facts
+    SE = "flussab::text::SyntaxError"
+    home = "flussab::text::LineReader::give_up_at_cold"
+    n_home = 0
+    for f, bb, si, rv in util.aggregates(facts, lambda a: a == SE):
+        if norm(f.id) != home:
+            rule.bad("%s/constructs-SyntaxError" % norm(f.id), "SyntaxError is constructed outside give_up_at_cold, bypassing the parked-error check", f.loc(bb))
+            continue
+        n_home += 1
+        c = cfg(f)
+        chk = util.calls_in(f, lambda n: n == A.DR + "check_io_error")
+        ok = False
+        why = "no call to check_io_error in give_up_at_cold"
+        for cbb, t in chk:
+            if not c.dominates(cbb, bb):
+                why = "the check does not dominate the construction"
+                continue
+            # the Err edge of the check must not reach the construction
+            sy = sym(f)
+            err_targets = []
+            for sb in c.reach:
+                tt = f.term(sb)
+                if tt["k"] == "switch":
+                    e = sy.operand(tt["discr"])
+                    if e[0] == "discr" and e[1][0] == "call" and e[1][1] == cbb:
+                        for val, tgt in tt["arms"]:
+                            if val == 1:
+                                err_targets.append(tgt)
+                        if not any(v == 1 for v, _ in tt["arms"]):
+                            err_targets.append(tt["otherwise"])
+            if not err_targets:
+                why = "the result of check_io_error is not branched on"
+                continue
+            if any(bb in c.reachable_from(e) for e in err_targets):
+                why = "SyntaxError construction reachable on the Err edge of the check"
+                continue
+            ok = True
+        rule.check(ok, "give_up_at_cold/check-dominates", "SyntaxError construction is dominated by the Ok edge of check_io_error (%s)" % ("ok" if ok else why), f.loc(bb))
+    if n_home == 0:
+        rule.bad("give_up_at_cold/no-construction", "positive control failed: give_up_at_cold no longer constructs SyntaxError", kind="anchor-missing")
+    # InnerParseError variants only inside the From impls
+    for f, bb, si, rv in util.aggregates(facts, lambda a: a.endswith("::error::InnerParseError")):
+        nid = norm(f.id)
+        ok = " as core::convert::From<" in nid or "impl core::convert::From<" in nid
+        rule.check(ok, "%s/constructs-%s" % (nid, rv["variant"]), "InnerParseError::%s constructed in %s (only the From impls may)" % (rv["variant"], sym_short(nid)), f.loc(bb))
+
+
+def sym_short(x):
+    return short(x)
+
+
+def run_r3(ctx, rule):
+    facts = ctx.facts
+    for crate in ("flussab_cnf", "flussab_aiger", "flussab_btor2"):
+        fid = crate + "::token::eof"
+        fn = facts.fn(fid)
+        key = [r for r in facts.roots if facts.inst[r]["def"] == fid]
+        if not key:
+            rule.bad(fid + "/root", "no instance for " + fid, kind="anchor-missing")
+            continue
+        eng = Engine(facts, EofAuto())
+        res = eng.summary(key[0], (False, False), (A.TOP,))
+        n_ok = 0
+        for av, st in res:
+            for sh in shape_of(av):
+                if sh == "Res(Ok)":
+                    n_ok += 1
+                    rule.check(st == (True, True), fid + "/Res(Ok)", "%s returns Res(Ok) only after an end-of-input answer and io_error()==None (state %s)" % (fid, st), fn.loc())
+                elif sh in ("Res(Err)", "Res(?)"):
+                    rule.bad(fid + "/" + sh, "%s can return %s" % (fid, sh), fn.loc())
+        if n_ok == 0:
+            rule.bad(fid + "/never-ok", "%s never succeeds (positive control)" % fid, fn.loc(), kind="anchor-missing")
+
+
+def run_r4(ctx, rule):
+    """the Err of check_io_error() flows into the function's returned error on every use"""
+    facts = ctx.facts
+    n = 0
+    for f, bb, t in util.calls_to(facts, lambda x: x == A.DR + "check_io_error"):
+        if norm(f.id).startswith("flussab::deferred_reader"):
+            continue
+        n += 1
+        d = t["dest"]
+        sy = sym(f)
+        key = "%s/check_io_error" % norm(f.id)
+        if d["p"]:
+            rule.bad(key, "result of check_io_error stored through a projection (unrecognised idiom)", f.loc(bb), kind="unmodelled-idiom")
+            continue
+        dl = d["l"]
+        used_branch = False
+        used_err = False
+        for b2, t2 in f.calls():
+            cn = util.cname(t2)
+            for a in t2["args"]:
+                e = sy.operand(a)
+                if cn.endswith("::branch") and e[0] == "call" and e[1] == bb:
+                    used_branch = True
+                if mentions(e, lambda x: x[0] == "v" and x[2] == "Err" and x[1][0] == "call" and x[1][1] == bb):
+                    # payload of the Err moved into a conversion whose result is returned
+                    if t2["dest"]["l"] == 0 and not t2["dest"]["p"]:
+                        used_err = True
+                    else:
+                        # or flows into an aggregate Err(..) assigned to the return place
+                        used_err = used_err or _flows_to_return(f, t2["dest"]["l"])
+        # payload may also be bound to a local first: (d as Err).0 -> err -> into()
+        if not (used_branch or used_err):
+            for b2, t2 in f.calls():
+                for a in t2["args"]:
+                    p = a.get("mv") or a.get("cp")
+                    if p and not p["p"] and _is_err_payload_of(f, p["l"], dl):
+                        if (t2["dest"]["l"] == 0 and not t2["dest"]["p"]) or _flows_to_return(f, t2["dest"]["l"]):
+                            used_err = True
+        rule.check(used_branch or used_err, key, "the Err of check_io_error() in %s is propagated with `?` or converted into the returned error" % short(f.id), f.loc(bb))
+    rule.note("call_sites", n)
+
+
+def _is_err_payload_of(f, l, dl):
+    for b in f.blocks:
+        for s in b["stmts"]:
+            if s["k"] == "assign" and s["lhs"]["l"] == l and not s["lhs"]["p"] and s["rv"]["k"] == "use":
+                p = s["rv"]["a"].get("mv") or s["rv"]["a"].get("cp")
+                if p and p["l"] == dl and any(isinstance(q, dict) and q.get("vname") == "Err" for q in p["p"]):
+                    return True
+    return False
+
+
+def _flows_to_return(f, l, depth=0):
+    if l == 0:
+        return True
+    if depth > 4:
+        return False
+    for b in f.blocks:
+        for s in b["stmts"]:
+            if s["k"] == "assign" and not s["lhs"]["p"]:
+                rv = s["rv"]
+                ops = []
+                if rv["k"] == "use":
+                    ops = [rv["a"]]
+                elif rv["k"] == "agg":
+                    ops = rv["ops"]
+                for o in ops:
+                    p = o.get("mv") or o.get("cp")
+                    if p and p["l"] == l and _flows_to_return(f, s["lhs"]["l"], depth + 1):
+                        return True
+    return False
+
+
 def run(ctx):
     r1 = ctx.rule(
         "C04-R1",
         "no API success return rests on an end-of-input answer without a later check of the parked I/O error",
-        floor=40,
+        floor=100,
     )
     run_r1(ctx, r1)
+    r2 = ctx.rule("C04-R2", "SyntaxError is constructed only in give_up_at_cold behind the Ok edge of check_io_error; InnerParseError only in From impls", floor=4)
+    run_r2(ctx, r2)
+    r3 = ctx.rule("C04-R3", "each crate's eof token succeeds only on end-of-input AND no parked error", floor=3)
+    run_r3(ctx, r3)
+    r4 = ctx.rule("C04-R4", "the Err returned by check_io_error() is never dropped in the format crates and LineReader", floor=3)
+    run_r4(ctx, r4)
     ctx.assume("unresolved leaf calls do not touch reader state; unwinding edges are not taken")
-    return "other", "typestate (clean/pending-end) decided on every path of every public parser function that returns Result/Parsed", {}
+    ctx.assume("a look-ahead whose result is never branched on does not decide a success (no event is generated for it)")
+    return "other", "typestate (clean/pending-end) decided on every path of every public parser function that returns Result/Parsed; plus who-may-construct, eof-token and no-dropped-error rules", {}
